@@ -1,5 +1,5 @@
 """C04 — geometry validation accepts exactly the regions inside the image (DESIGN §4 C04)."""
-from ..engines import ranges, validators
+from ..engines import ranges, validators, type_tables
 from ..progs import programs
 from . import c03
 
@@ -15,6 +15,7 @@ def run(rep, tier):
         rep.call(validators.buffer_validators, rep, prog, "C04.buffers")
         rep.call(validators.constructors_validate, rep, prog, "C04.constructors")
         rep.call(validators.unchecked_crop, rep, prog, "C04.unchecked-crop")
+        rep.call(type_tables.align_table, rep, prog, "C04.align-table")
         n = c03.arith(rep, prog, "C04.arith", only=lambda f: any(
             f.file == s or f.file.startswith(s) for s in VALIDATOR_FILES))
         rep.floor("C04.arith", "arithmetic asserts in validators/containers", n, 30)
